@@ -23,6 +23,14 @@ class Inconclusive(Exception):
     """Raised by a case that could not be judged (e.g. watchdog under load); never a violation."""
 
 
+class Hang(Exception):
+    """A case tripped the per-case watchdog.  Not shrunk by Hypothesis (every shrink step would cost a timeout):
+    the test function catches it, calls ctx.hang() and returns; run_hypothesis confirms it afterwards."""
+    def __init__(self, case):
+        super().__init__('watchdog')
+        self.case = case
+
+
 def load_known():
     p = os.path.join(VERIF, 'known_findings.json')
     if not os.path.exists(p):
@@ -75,6 +83,8 @@ class Ctx:
         self.known = [f for f in load_known() if f.get('property') == prop and f.get('status') == 'open']
         self.stop = False
         self.scale = scale
+        self.hangs = []
+        self.abort_chunk = False
 
     def thorough(self):
         return self.tier == 'thorough'
@@ -87,6 +97,10 @@ class Ctx:
 
     def rng(self, salt=0):
         return random.Random((self.seed * 1000003 + self.k * 7919 + salt) & 0xFFFFFFFF)
+
+    def hang(self, case):
+        self.hangs.append(case)
+        self.abort_chunk = True
 
     def known_hit(self, fid):
         self.rec.known_hits[fid] = self.rec.known_hits.get(fid, 0) + 1
@@ -137,9 +151,49 @@ class Ctx:
                     self.stop = True
             except Inconclusive:
                 self.rec.inconclusive += 1
+            except Exception as e:
+                # Hypothesis wraps failures it could not reproduce identically (Flaky / FlakyFailure groups): dig out the
+                # Violation it saw and let the 3x replay confirmation decide whether it is reported
+                v = _find_violation(e)
+                if v is None:
+                    raise
+                self.report(v, replay_fn)
+                if stop_on_violation:
+                    self.stop = True
+            if self.hangs:
+                # watchdog candidates: the module's replay function re-runs the case alone with a long limit, three times
+                for case in self.hangs[:2]:
+                    try:
+                        if replay_fn is not None:
+                            replay_fn(dict(case, confirm_hang=True))
+                        self.rec.notes.append('watchdog tripped but the case completed when re-run alone (load): not reported')
+                        self.rec.inconclusive += 1
+                    except Violation as v:
+                        self.report(v, None)
+                        self.stop = True
+                    except Inconclusive:
+                        self.rec.inconclusive += 1
+                self.hangs = []
+                self.abort_chunk = False
             done += nex
             ci += 1
         return done
+
+
+def _find_violation(e, depth=0):
+    if isinstance(e, Violation):
+        return e
+    if depth > 6 or e is None:
+        return None
+    for sub in getattr(e, 'exceptions', []) or []:
+        v = _find_violation(sub, depth + 1)
+        if v is not None:
+            return v
+    for sub in (e.__cause__, e.__context__):
+        v = _find_violation(sub, depth + 1)
+        if v is not None:
+            return v
+    return None
 
 
 def worker_main(modname, prop, tier, seed, k, nworkers, budget_s, outpath):
